@@ -44,7 +44,7 @@ def run_one_scratch(sid, props):
     out = {'id': sid, 'applied': True, 'checks': {}, 'caught_by': []}
     env = dict(os.environ, YRSA_NO_EVIDENCE='1', YARA_REPO=tree, YRSA_CACHE=cache)
     for p in props:
-        c = subprocess.run([os.path.join(HERE, 'check'), p, '--tier', 'quick'], env=env,
+        c = subprocess.run([os.path.join(CHECKER, 'check'), p, '--tier', 'quick'], env=env,
                            stdout=subprocess.PIPE, stderr=subprocess.STDOUT, text=True)
         lines = [l for l in c.stdout.splitlines()
                  if l.endswith(']') and ': R' in l and 'VIOLATION' not in l and not l.startswith('[')]
@@ -63,6 +63,7 @@ def run_one_scratch(sid, props):
 
 
 SCRATCH_BASE = '/tmp/seedrun-base'
+CHECKER = HERE        # --jobs mode runs a snapshot of the checker, so that /verif can be edited meanwhile
 
 
 def run_one(sid, props):
@@ -132,10 +133,16 @@ def main():
             sys.exit('/repo has local modifications')
         shutil.rmtree(SCRATCH_BASE, ignore_errors=True)
         subprocess.run(['rsync', '-a', '--exclude', '.git', REPO + '/', SCRATCH_BASE + '/'], check=True)
+        global CHECKER
+        CHECKER = '/tmp/seedrun-verif-%d' % os.getpid()
+        subprocess.run(['rsync', '-a', '--exclude', '.git', '--exclude', '.cache', '--exclude', 'seeded',
+                        '--exclude', 'mutants', '--exclude', 'evidence', '--exclude', '__pycache__',
+                        HERE + '/', CHECKER + '/'], check=True)
         with ThreadPoolExecutor(max_workers=jobs) as ex:
             for sid, o in zip(ids, ex.map(lambda s_: run_one_scratch(s_, props), ids)):
                 results[sid] = o
         shutil.rmtree(SCRATCH_BASE, ignore_errors=True)
+        shutil.rmtree(CHECKER, ignore_errors=True)
     p = os.path.join(HERE, 'seeded', 'RESULTS.json')
     if os.path.exists(p):
         summary = json.load(open(p))
